@@ -44,6 +44,19 @@ SHAPES = [
 ]
 
 
+def broken_pipe_error(k):
+    """A broken-pipe error in the flavours a stream may raise it: the OS error (EPIPE), a shutdown socket (ESHUTDOWN is mapped to the same
+    class), and the bare exception a wrapper / in-process transport raises without an errno."""
+    flavour = (k or 0) % 4
+    if flavour == 1:
+        return BrokenPipeError()
+    if flavour == 2:
+        return BrokenPipeError(errno.ESHUTDOWN, 'Cannot send after transport endpoint shutdown')
+    if flavour == 3:
+        return BrokenPipeError('consumer went away')
+    return BrokenPipeError(errno.EPIPE, 'Broken pipe')
+
+
 class BrokenTextSink(object):
     """Text stream raising BrokenPipeError from its k-th write call; records everything."""
 
@@ -59,17 +72,17 @@ class BrokenTextSink(object):
         self.calls += 1
         if self.faulted:
             self.calls_after_fault += 1
-            raise BrokenPipeError(errno.EPIPE, 'Broken pipe')
+            raise broken_pipe_error(self.k)
         if self.k is not None and self.calls >= self.k:
             self.faulted = True
-            raise BrokenPipeError(errno.EPIPE, 'Broken pipe')
+            raise broken_pipe_error(self.k)
         self.accepted.append(s)
         return len(s)
 
     def flush(self):
         if self.faulted:
             self.flushes_after_fault += 1
-            raise BrokenPipeError(errno.EPIPE, 'Broken pipe')
+            raise broken_pipe_error(self.k)
 
     def close(self):
         pass
@@ -93,10 +106,10 @@ class BrokenRawSink(io.RawIOBase):
         self.calls += 1
         if self.faulted:
             self.calls_after_fault += 1
-            raise BrokenPipeError(errno.EPIPE, 'Broken pipe')
+            raise broken_pipe_error(self.k)
         if self.k is not None and self.calls >= self.k:
             self.faulted = True
-            raise BrokenPipeError(errno.EPIPE, 'Broken pipe')
+            raise broken_pipe_error(self.k)
         self.accepted.append(bytes(b))
         return len(b)
 
